@@ -15,11 +15,25 @@ inductive Container where
   | vcf | vcfGz | bcfGz | bcfRaw
 deriving Repr, DecidableEq
 
-/-- `(r.by_ref().take(65536)).read_to_end(&mut prefix)`: the prefix is the first 64 KiB whatever the chunk schedule. -/
-def readPrefix (r : Rd) : Except IoErr (List Nat × Rd) :=
-  match r.readToEnd (r.data.length + 1) with   -- read_to_end of the `Take` adaptor; truncated below
-  | .ok (bytes, r') => .ok (bytes.take 65536, r')
-  | .error e => .error e
+/-- `(&mut reader).take(limit).read_to_end(&mut prefix)`: reads until `limit` bytes have been taken or the stream ends;
+    `fuel ≥ limit` (every round takes at least one byte). -/
+def Rd.readUpTo : Nat → Nat → Rd → Except IoErr (List Nat × Rd)
+  | 0, _, r => .ok ([], r)
+  | _, 0, r => .ok ([], r)
+  | fuel + 1, limit + 1, r =>
+    match r.fillBuf with
+    | .error e => .error e
+    | .ok (buf, r') =>
+      if buf.isEmpty then .ok ([], r')
+      else
+        let k := min buf.length (limit + 1)
+        match Rd.readUpTo fuel (limit + 1 - k) (r'.consume k) with
+        | .ok (more, r'') => .ok (buf.take k ++ more, r'')
+        | .error e => .error e
+
+/-- The detection prefix of `build_from_reader` (fix 1c0411c): up to 64 KiB read ahead, whatever the chunking; the
+    reader is left positioned right after the prefix. -/
+def readPrefix (r : Rd) : Except IoErr (List Nat × Rd) := r.readUpTo 65536 65536
 
 /-- `CompressionMethod::detect` + `Format::detect` on the prefix; `inflate3` yields the first three decompressed bytes
     of a gzip member (flate2's `MultiGzDecoder::read_exact`), `none` if that fails. -/
@@ -39,5 +53,20 @@ def createFromBytes (inflate3 : List Nat → Option (List Nat)) (decode : Contai
   match detectContainer inflate3 (bytes.take 65536) with
   | .error _ => none
   | .ok c => (decode c bytes).map (fun cs => createCli a cs.1 cs.2)
+
+/-- `sfs create` over a chunk-scheduled stream: read the detection prefix, detect on it, then hand
+    `Cursor::new(prefix).chain(reader)` — i.e. prefix followed by everything the reader still delivers — to the decoder of
+    the detected container. -/
+def createFromRd (inflate3 : List Nat → Option (List Nat)) (decode : Container → List Nat → Option CallSet)
+    (a : CreateArgs) (r : Rd) : Option CreateOut :=
+  match readPrefix r with
+  | .error _ => none
+  | .ok (pfx, r') =>
+    match detectContainer inflate3 pfx with
+    | .error _ => none
+    | .ok c =>
+      match r'.readToEnd (r'.data.length + 1) with
+      | .error _ => none
+      | .ok (rest, _) => (decode c (pfx ++ rest)).map (fun cs => createCli a cs.1 cs.2)
 
 end Sfs
